@@ -70,6 +70,14 @@ def main():
         shutil.rmtree("/verif/build/alt-" + __import__("hashlib").sha256(os.path.realpath(wt).encode()).hexdigest()[:10], ignore_errors=True)
         d = os.path.join(VERIF, "seeded", name)
         os.makedirs(d, exist_ok=True)
+        prev = os.path.join(d, "eval.json")
+        if no_ctest and os.path.exists(prev):
+            # re-evaluation after a check was strengthened: keep the earlier confirmation, record the history
+            old = json.load(open(prev))
+            for k in ("builds", "ctest"):
+                if k in old and k not in meta:
+                    meta[k] = old[k]
+            meta["earlier_checks_run"] = old.get("earlier_checks_run", []) + [{"at": old.get("at"), "checks_run": old.get("checks_run")}]
         for f in os.listdir(src):
             p = os.path.join(src, f)
             if os.path.isfile(p) and os.path.getsize(p) < 200000:
